@@ -106,7 +106,7 @@ class Git(Space):
             for i in range(n):
                 for root in (0, 1):
                     yield (((d, (i,)),), root)
-            second = range(n) if self.tier == "thorough" else self.reps
+            second = range(n)
             for i in range(n):
                 for j in second:
                     for root in (0, 1):
